@@ -24,7 +24,7 @@ CLAIMED = {
          "objects that loading itself reads are not overwritten (that would invalidate the file); saved bytes come from File::save_to",
          "DESIGN.md §4 C09"),
  "C01": ("seeded structure-aware mutation fuzzing of corpus and generated documents in isolated worker processes, driven by proptest (shrinkable mutation lists); oracle = every call of the deep walk returns, no panic/abort, bounded allocation; thorough tier ends with a coverage-guided libFuzzer campaign (target open_walk)",
-         "Generated-input search: each input (corpus file, corpus mutant with 1-8 stacked token- and byte-level mutations, generated typed document with damage inside object bodies applied before layout so the file still loads, raw bytes) is walked deeply (pages, resources, fonts, images, forms, content, trees, outlines, fields, every object number, recovery scan) in strict/tolerant x cached/uncached, each walk in a worker process with a counting allocator; panics are collected per call, a dead worker or a confirmed time-out pins the input, allocation is checked against T <= 256MiB + 4000(n+d), P <= 128MiB + 400(n+d). About half of the inputs reach typed loading (see evidence labels).",
+         "Generated-input search: each input (corpus file, corpus mutant with 1-8 stacked token- and byte-level mutations, generated typed document with damage inside object bodies applied before layout so the file still loads, raw bytes, C14's hostile structures, image streams with every predictor geometry and a decoded length short or long by up to a row) is walked deeply (pages, resources, fonts, images, forms, content, trees, outlines, fields, every object number, recovery scan) in strict/tolerant x cached/uncached, each walk in a worker process with a counting allocator; panics are collected per call, a dead worker or a confirmed time-out pins the input, allocation is checked against T <= 256MiB + 4000(n+d), P <= 128MiB + 400(n+d). About half of the inputs reach typed loading (see evidence labels).",
          "absence of hangs is judged by a 40 s budget confirmed at 160 s; the walk is what engine/walker.rs reads; a search cannot cover all byte strings",
          "DESIGN.md §4 C01"),
  "C14": ("bounded exhaustive enumeration: every reference slot of 7 typed schema fragments pointed at every object, every numeric slot set to each boundary value, plus structural cases and proptest-generated multi-slot combinations; same isolated-walk oracle as C01",
@@ -124,7 +124,7 @@ manifest = {
         "add_only": True,
     },
     "engines": [
-        {"name": "vh", "path": "/verif/harness", "serves_properties": sorted(CLAIMED), "kind_free_text": "Rust harness: proptest-driven generators, bounded exhaustive enumeration, independent reference model (writer, reader, filters, crypt), shrinking to JSON replay files"},
+        {"name": "vh", "path": "/verif/harness", "serves_properties": sorted(CLAIMED), "kind_free_text": "Rust harness: proptest-driven generators, bounded exhaustive enumeration, independent reference model (writer, reader, filters, crypt), thread scheduler over yield hooks, worker-process isolation with counting allocator, shrinking to JSON replay files; four cargo-fuzz/libFuzzer targets under harness/fuzz run by tools/fuzz.sh in the thorough tier of C01, C04, C08, C16"},
     ],
     "checks": checks,
     "notes": "All checks: exit 0 = held on everything explored (KNOWN-FINDING lines for entries of known_findings.json), 1 = VIOLATION line with replay file, 2 = harness error or inconclusive. VERIF_SEED selects the PRNG stream.",
